@@ -1,7 +1,7 @@
 (* C06/Props.v -- property theorems only; each is closed by [exact] of a lemma of
    C06/Proofs.v (Calc.v, Lin.v, Leaves.v) and followed by Print Assumptions.
 
-   The model (C06/Model.v): [oexpr] = the ten expression classes of
+   The model (C06/Model.v): [oexpr] = the nine expression classes of
    odl/operator/operator.py and the block operators BroadcastOperator /
    ReductionOperator / DiagonalOperator / ProductSpaceOperator (sparse matrix
    with holes) of pspace_ops.py (any number of blocks;
@@ -35,7 +35,7 @@ From Verif Require Import Base.Num Base.Vec C06.Syntax Gen.UfuncDeriv C06.Model 
 Import ListNotations.
 Local Open Scope R_scope.
 
-(* T1. For EVERY expression tree e (any depth, any mix of the fourteen classes,
+(* T1. For EVERY expression tree e (any depth, any mix of the thirteen classes,
    any number of blocks, any leaves), every point x at which derivative(x) returns and which is
    regular: the returned object D
      (1) evaluates to the Frechet/Hadamard derivative of e at x,
